@@ -1,6 +1,8 @@
 (* C18 — every request gets a response; rejected requests change nothing. *)
 From Coq Require Import List NArith ZArith Bool.
 From Syz Require Import Coll Rest RestProofs.
+(* the path indices of the handlers are below the segment counts their guards establish (regenerated from rest.go on this run) *)
+From Syz Require GenTablesOk.
 Import ListNotations.
 Open Scope N_scope.
 
